@@ -141,7 +141,7 @@ func VerifC10_CursorConstructors() {
 var vC10Bases = []string{`s = "x"`, `i > 1 and b`, `anyOf(roles) = "a" sort by s desc limit 2`, `s in ["x", "y"] or not (b)`}
 
 // characters that occur in no token of the grammar (outside string literals)
-var vC10BadChars = []string{"#", "$", "%", "&", "'", ";", "?", "@", "^", "`", "~", "{", "}", "|", "\\", "*", "/", "\x01", "\x7f", "é"}
+var vC10BadChars = []string{"#", "$", "%", "&", "'", ";", "?", "@", "^", "`", "~", "{", "}", "|", "\\", "*", "/", "\x01", "\x7f", "é", "\f", "\v", "\u0085", "\u00a0", "\u2028", "\u3000"}
 
 // verifC10Mutants: every base query with one unrecognised character inserted
 // at every position that is not inside a string literal.
